@@ -4,7 +4,8 @@ from lib import S, observe_call
 
 GEN = ["NameCleanerParams"]
 RULE = ("exhaustive over the 12-symbol alphabet {a Z 7 _ - . space tab LF CR e-acute !} up to length 4 (quick) / 5 (thorough); "
-        "random Unicode strings up to length 40; headings pool. Non-trivial = the model's loop ran at least once (branch = iteration count > 0); "
+        "random Unicode strings up to length 40; headings pool incl. blank-only and line-break-only headings. For every string also the $anchor that "
+        "HeadingRowSchemaLoader.header gives a sheet with that single heading, and whether Draft202012Validator.check_schema accepts that schema. Non-trivial = the model's loop ran at least once (branch = iteration count > 0); "
         "distinct = distinct case lines.")
 TRIVIAL_BRANCHES = [0]
 ASSUMPTIONS = ["Python re semantics of the one pattern used by name_cleaner (modelled by hand in coq/Model/NameCleaner.v, tied by this run)",
@@ -39,7 +40,27 @@ def observe(ctx, text):
         o2 = observe_call(lambda: name_cleaner("".join(chr(c) for c in o1[1])), S)
     else:
         o2 = [1, 0]
-    return [S(text), o1, o2]
+    # the property's second half: the heading becomes a column of a heading-row schema that passes validation.
+    # o3 = the $anchor HeadingRowSchemaLoader gives a sheet whose only heading is `text`; o4 = does that schema validate
+    # (0 yes, 1 no, 2 the loader raised)
+    from stingray.workbook import HeadingRowSchemaLoader
+    from jsonschema import Draft202012Validator
+
+    def anchor():
+        sch = HeadingRowSchemaLoader().header(iter([[text]]))
+        ctx_schema.append(sch)
+        return sch["properties"][text]["$anchor"]
+    ctx_schema = []
+    o3 = observe_call(anchor, S)
+    if ctx_schema:
+        try:
+            Draft202012Validator.check_schema(ctx_schema[0])
+            o4 = 0
+        except Exception:
+            o4 = 1
+    else:
+        o4 = 2
+    return [S(text), o1, o2, o3, o4]
 
 
 def describe(text):
